@@ -16,6 +16,8 @@ import (
 
 	"github.com/dave/dst"
 	"github.com/dave/dst/decorator"
+	"github.com/dave/dst/decorator/resolver/goast"
+	"github.com/dave/dst/decorator/resolver/guess"
 	"github.com/dave/dst/dstutil"
 	"pgregory.net/rapid"
 
@@ -52,6 +54,7 @@ type Assign struct {
 }
 
 type Case struct {
+	Imports bool     `json:"imports"` // decorate with the goast resolver and restore with import management: qualified identifiers become path-carrying identifiers with the points Start, X, End
 	Src     string   `json:"src"`
 	From    string   `json:"from,omitempty"`
 	Assigns []Assign `json:"assigns"`
@@ -91,15 +94,37 @@ func hasBuildHeader(src string) bool {
 func check(sub string) func(t h.TB, c Case) {
 	return func(t h.TB, c Case) {
 		d := docs(t)
-		f, err := decorator.Parse(c.Src)
-		if err != nil {
-			t.Fatalf("harness: %v", err)
+		var f *dst.File
+		var err error
+		var base []byte
+		print := func(f *dst.File) ([]byte, error) {
+			if !c.Imports {
+				return dsth.Print(f)
+			}
+			var buf bytes.Buffer
+			err := decorator.NewRestorerWithImports("example.com/self", guess.New()).Fprint(&buf, f)
+			return buf.Bytes(), err
 		}
-		base, err := dsth.Print(f)
+		if c.Imports {
+			f, err = decorator.NewDecoratorWithImports(token.NewFileSet(), "example.com/self", goast.New()).Parse(c.Src)
+			if err != nil {
+				h.Exclude("the syntax-only resolver refuses this file (dot-import / ambiguous names)")
+				return
+			}
+		} else {
+			f, err = decorator.Parse(c.Src)
+			if err != nil {
+				t.Fatalf("harness: %v", err)
+			}
+		}
+		// (with import management the first print also normalises the import declarations of f)
+		base, err = print(f)
 		if err != nil {
 			t.Fatalf("harness: base does not print: %v", err)
 		}
-		f, _ = decorator.Parse(c.Src)
+		if !c.Imports {
+			f, _ = decorator.Parse(c.Src)
+		}
 		nodes := dsth.Nodes(f)
 		parent := map[dst.Node]dst.Node{}
 		{
@@ -214,12 +239,11 @@ func check(sub string) func(t h.TB, c Case) {
 			h.Exclude("no decoration could be placed (all drawn points are excluded)")
 			return
 		}
-		var buf bytes.Buffer
-		h.Guard(t, sub, c, func() { err = decorator.Fprint(&buf, f) })
+		var out []byte
+		h.Guard(t, sub, c, func() { out, err = print(f) })
 		if err != nil {
 			h.Fail(t, sub, c, "Fprint: %v", err)
 		}
-		out := buf.Bytes()
 		// (a) every decoration exactly once
 		for _, p := range ps {
 			if n := bytes.Count(out, []byte(p.text)); n != 1 {
@@ -256,6 +280,28 @@ func check(sub string) func(t h.TB, c Case) {
 			anodes = append(anodes, n)
 			return true
 		})
+		if c.Imports {
+			// a path-carrying identifier is printed as a selector expression: three ast nodes
+			var mapped []ast.Node
+			j := 0
+			for _, n := range nodes {
+				if j >= len(anodes) {
+					t.Fatalf("harness: the output has fewer nodes than the tree")
+				}
+				mapped = append(mapped, anodes[j])
+				if id, ok := n.(*dst.Ident); ok && id.Path != "" {
+					if _, isSel := anodes[j].(*ast.SelectorExpr); isSel {
+						j += 3
+						continue
+					}
+				}
+				j++
+			}
+			if j != len(anodes) {
+				t.Fatalf("harness: node correspondence lost (%d of %d ast nodes consumed)", j, len(anodes))
+			}
+			anodes = mapped
+		}
 		if len(anodes) != len(nodes) {
 			t.Fatalf("harness: %d dst nodes, %d ast nodes in the output", len(nodes), len(anodes))
 		}
@@ -270,7 +316,7 @@ func check(sub string) func(t h.TB, c Case) {
 		for _, p := range ps {
 			an := anodes[p.node]
 			ty := typeOf(an)
-			if ty != dsth.TypeName(nodes[p.node]) {
+			if ty != dsth.TypeName(nodes[p.node]) && !(c.Imports && ty == "SelectorExpr" && dsth.TypeName(nodes[p.node]) == "Ident") {
 				t.Fatalf("harness: node %d is %s in dst and %s in the output", p.node, dsth.TypeName(nodes[p.node]), ty)
 			}
 			w, ok := where[p.text]
@@ -285,6 +331,11 @@ func check(sub string) func(t h.TB, c Case) {
 					h.Fail(t, sub, c, "%s is rendered after the node's first token (comment ends at %d, node starts at %d)\n%s", desc, w[1], nStart, out)
 				}
 			case "End":
+				if implicitEnd(an) {
+					// `L:` before a closing brace: go/parser gives the implicit empty statement the
+					// position of the brace, which is not a token of the node
+					break
+				}
 				if w[0] < nEnd {
 					h.Fail(t, sub, c, "%s is rendered before the node's last token (comment at %d, node ends at %d)\n%s", desc, w[0], nEnd, out)
 				}
@@ -316,6 +367,16 @@ func check(sub string) func(t h.TB, c Case) {
 	}
 }
 
+func implicitEnd(n ast.Node) bool {
+	switch n := n.(type) {
+	case *ast.EmptyStmt:
+		return n.Implicit
+	case *ast.LabeledStmt:
+		return implicitEnd(n.Stmt)
+	}
+	return false
+}
+
 func genCase(sub string) func(t *rapid.T) (Case, bool) {
 	return func(t *rapid.T) (Case, bool) {
 		var src []byte
@@ -338,7 +399,10 @@ func genCase(sub string) func(t *rapid.T) (Case, bool) {
 			h.Exclude("base does not parse / gofmt not idempotent")
 			return Case{}, false
 		}
-		c := Case{Src: string(cs), From: from}
+		c := Case{Src: string(cs), From: from, Imports: rapid.IntRange(0, 3).Draw(t, "imports") == 0}
+		if c.Imports {
+			h.Label("with-import-management")
+		}
 		n := rapid.IntRange(1, 6).Draw(t, "nassign")
 		for i := 0; i < n; i++ {
 			a := Assign{Node: rapid.IntRange(0, 1<<20).Draw(t, "node"), Point: rapid.IntRange(0, 12).Draw(t, "point")}
